@@ -173,7 +173,7 @@ func CanonX(f *File) map[string]string {
 		case "message":
 			out[key] = fmt.Sprintf("xr=%s rr=%s rn=%s opts=%s", rangesText(dl.XR), rangesText(dl.RR), strings.Join(dedupe(dl.RN), ","), optNames(dl.Opts))
 		case "enum":
-			out[key] = fmt.Sprintf("alias=%v opts=%s", dl.Alias, optNames(dl.Opts))
+			out[key] = fmt.Sprintf("alias=%v rr=%s rn=%s opts=%s", dl.Alias, rangesText(dl.RR), strings.Join(dedupe(dl.RN), ","), optNames(dl.Opts))
 		case "oneof", "service":
 			out[key] = "opts=" + optNames(dl.Opts)
 		case "value":
